@@ -173,6 +173,11 @@ fn state(b: &mut B, moves: &[String], with_type: bool, extra: &mut Vec<String>, 
 }
 
 fn game_moves(r: &RawDoc) -> Vec<String> {
+    if r.bits >> 60 == 0xF || r.order % 5 == 0 {
+        // decoding does not (and cannot) judge legality: any well-formed UCI move texts must come back unchanged
+        let letters = ["", "", "", "", "q", "r", "b", "n"];
+        return r.game.choices.iter().map(|&c| format!("{}{}{}", crate::refmodel::sq_name((c % 64) as u8), crate::refmodel::sq_name((c / 64 % 64) as u8), letters[(c / 4096 % 8) as usize])).collect();
+    }
     let mut raw = r.game.clone();
     raw.seed = 0; // games on Lichess start from the initial position unless initialFen says otherwise
     raw.flip = false;
